@@ -201,6 +201,9 @@ def check_short_input(rc: RuleCtx, rule: str, fi, extra_args=None, allow=None, l
         out = ev.eval_function(fi, args)
     except Unsupported as e:
         raise AnalysisError(f"{fi.qualname}: not modelled: {e}")
+    # (the exits that hand back the input itself are judged here: each must be confined to at most one knee)
+    from .common import account_exits
+    account_exits(fi, lambda r: isinstance(r.value, ast.Name) and r.value.id == "knees")
     ok = True
     n = 0
     for g, v in out.returns:
